@@ -6,7 +6,10 @@
    tied to /repo by `./check C15` (serialize byte-exact, parse on reference-written images that the
    extracted conforms_packb accepted, the game file, malformed inputs in both build profiles).
 
-   Names are in encoded form (NUL-free Shift-JIS bytes, assumption A-codec).  Hypotheses that are
+   Names are in encoded form (NUL-free Shift-JIS bytes, assumption A-codec): read at the level of Rust Strings the theorems
+   speak about names s with decode (encode s) = s.  "Shift-JIS-representable" is therefore narrower than "encodes without
+   error": U+00A5, U+203E and U+2212 encode (to 5C, 7E, 81 7C) but come back as U+005C, U+007E, U+FF0D - a file named
+   "\u{A5}a" is found again under "\\a" (outside the domain, as in C01 and C06).  Hypotheses that are
    limits of the code, not of the proof: at most 65535 files (`contents.len() as u16` truncates,
    see C15_count_truncates) and an image below 4 GiB (`as u32` truncates) - fits32. *)
 From Coq Require Import List NArith Bool.
